@@ -2058,6 +2058,8 @@ fn main() {
             "line_start": line_of(text, a),
             "line_end": line_of(text, b),
             "original": &text[a..b],
+            "span_start": a,
+            "span_end": b,
             "text": rendered,
             "n_loops": n_loops,
             "n_closures": n_closures,
